@@ -15,7 +15,7 @@ Same(snap, logged) == /\ snap.act.k = logged.act.k /\ snap.act.d = logged.act.d
                       /\ \A x \in Idx : snap.arch[x].k = logged.arch[ToString(x)].k /\ snap.arch[x].d = logged.arch[ToString(x)].d
 PreEntry(p) == IF p < 0 THEN Absent ELSE IF p = 0 THEN File(<<>>) ELSE File(<<[id |-> 0, sz |-> p]>>)
 Blank(p) ==
-  /\ disk = [act |-> PreEntry(p), arch |-> [i \in Idx |-> Absent]]
+  /\ disk = [act |-> PreEntry(p), arch |-> [i \in Idx |-> Absent], gone |-> FALSE]
   /\ W = (IF p > 0 THEN <<[id |-> 0, sz |-> p]>> ELSE <<>>) /\ refAct = (IF p > 0 THEN <<[id |-> 0, sz |-> p]>> ELSE <<>>)
   /\ hist = <<>> /\ writer = Closed
   /\ pc = "down" /\ cur = [id |-> 0, sz |-> 0] /\ ri = 0 /\ after = "none"
@@ -24,7 +24,7 @@ Blank(p) ==
   /\ ref = <<>> /\ rolls = 0 /\ res = "none"
 TInit == Blank(-1) /\ l = 1 /\ TLCSet(1, 0)
 TReset == /\ Is("reset")
-          /\ disk' = [act |-> PreEntry(Ev.pre), arch |-> [i \in Idx |-> Absent]]
+          /\ disk' = [act |-> PreEntry(Ev.pre), arch |-> [i \in Idx |-> Absent], gone |-> FALSE]
           /\ W' = (IF Ev.pre > 0 THEN <<[id |-> 0, sz |-> Ev.pre]>> ELSE <<>>) /\ refAct' = W'
           /\ hist' = <<>> /\ writer' = Closed
           /\ pc' = "down" /\ cur' = [id |-> 0, sz |-> 0] /\ ri' = 0 /\ after' = "none"
